@@ -174,6 +174,7 @@ CHECKS['C14'] = dict(
                dict(tu='c14_convert', group='convert_cc', shards=2),
                dict(tu='c14_unary', group='fill', shards=1),
                dict(tu='c14_unary', group='foreach', shards=1),
+               dict(tu='c14_unary_w', group='fill', shards=2),        # 8 alternatives: compatible pixels of another channel order (rgb8 <-> bgr8)
                dict(tu='c14_resample', group='resample_nn', bounds=dict(dstall=0), shards=3),
                dict(tu='c14_resample', group='resample_bl', bounds=dict(dstall=0), shards=3)],
         thorough=[dict(tu='c14_api', group='api', shards=1),
